@@ -37,6 +37,12 @@ TSerial == LET r == Events[l]
            IN /\ IsEvent("DimSerial") /\ IsDim(r.d) /\ r.form \in {"JSON", "XML", "YAML"}
               /\ bad' = IF r.ok /\ r.pairs = want THEN bad ELSE Append(bad, [cls |-> "extra_dims_serial", d |-> r.d, form |-> r.form])
               /\ seen' = [seen EXCEPT !.serials = @ + 1]
+(* Dimensions{} is the dimensionless set; each base-dimension class orders, hashes, prints and streams as its exponent *)
+TBase == LET r == Events[l] IN
+           /\ IsEvent("DimBase") /\ r.pairs > 0
+           /\ bad' = bad \o (IF r.default_is_dimensionless = 1 THEN <<>> ELSE <<[cls |-> "dims_order", a |-> <<"default constructor">>, b |-> <<>>]>>)
+                         \o (IF r.bad = 0 THEN <<>> ELSE <<[cls |-> "dims_order", a |-> <<"base dimension class">>, b |-> <<r.bad>>]>>)
+           /\ UNCHANGED seen
 TSummary == LET r == Events[l] IN
            /\ IsEvent("DimSummary")
            /\ bad' = bad \o (IF \A i \in 1..7 : r.hash_sensitive[i] = 1 THEN <<>>
@@ -47,7 +53,7 @@ TSummary == LET r == Events[l] IN
 TFinish == /\ l = Len(Events) + 1 /\ l' = l + 1
            /\ JsonSerialize(IOEnv.OUT, [bad |-> bad, seen |-> seen])
            /\ UNCHANGED <<bad, seen>>
-Next == TPrint \/ TCmp \/ TSerial \/ TSummary \/ TFinish
+Next == TPrint \/ TCmp \/ TSerial \/ TBase \/ TSummary \/ TFinish
 Spec == Init /\ [][Next]_vars
 Accepted == TLCGet("stats").diameter - 2 = Len(Events)
 =============================================================================
